@@ -51,7 +51,7 @@ def variants(kind, tier):
         return [{k: v, r: rr} for v in ["5/2", -2] for rr in [0, 3]]
     if kind in ("ac_voltage_source", "ac_current_source"):
         k, r = ("V", "R") if "voltage" in kind else ("I", "G")
-        return [{k: v, r: rr, "w": w, "phi": ph} for v in ["5/2", -2] for rr in [0, 3] for w in [0, 1, 50] for ph in (PHIS if T else PHIS[:3])]
+        return [{k: v, r: rr, "w": w, "phi": ph} for v in ["5/2", -2] for rr in [0, 3] for w in [0, 1, 50, 2000] for ph in (PHIS if T else PHIS[:3])]
     if kind == "complex_voltage_source":
         return [{"V": v, "Z": z} for v in [[1, 2], [-3, 0]] for z in [[0, 0], [2, 1]]]
     if kind == "complex_current_source":
@@ -72,7 +72,8 @@ def default_params(kind):
 def freq_alphabet(p, res):
     ws = F(p.get("w", 0)) if not isinstance(p.get("w", 0), str) else F(p["w"])
     res = F(res)
-    cand = [F(0), ws, ws + res / 2, ws - res / 2, ws + 2 * res, ws - 2 * res, 2 * ws, 3 * ws, 3 * ws + res / 2, F(7, 3)]
+    cand = [F(0), ws, ws + res / 2, ws - res / 2, ws + res * F(99, 100), ws - res * F(99, 100), ws + res * F(101, 100), ws - res * F(101, 100),
+            ws + 2 * res, ws - 2 * res, 2 * ws, 3 * ws, 3 * ws + res / 2, 3 * ws + res * F(101, 100), F(7, 3)]
     out = []
     for w in cand:
         if w >= 0 and w not in out:
